@@ -132,7 +132,7 @@ pub fn judge_interval(
         return (Some(0.0), Some(0.0));
     }
     let floor = tol_floor(ex.dof);
-    let mut chk = |name: &str, b: f64, c: f64, s: &mut Sink| {
+    let chk = |name: &str, b: f64, c: f64, s: &mut Sink| {
         // data-dependent part of the tolerance: relative error of se (sensitivity
         // c*pdf(c) <= 0.3) plus absolute error of the bound (mean error + final rounding
         // to the float type; sensitivity pdf <= 0.4 per unit of se)
